@@ -211,6 +211,13 @@ def run(index, rep, tier):
 
 
     # -------------------------------------------------------------------------
+
+    # ---- R03.7 an update leaves what a fresh encoding would
+    with rep.section("R03.7"):
+        rep.rule("R03.7", "an operation asked to update bipartitions leaves what a fresh encoding would produce: every encode renews every edge's bipartition and compiles all of them against the tree's current leaf set (C01 R01.10, R01.3)")
+        rep.floor("R03.7", "borrowed obligations", 4, borrow(index, rep, "C01", {"R01.10", "R01.3"}, "R03.7"))
+
+
 def _pairing(rep, fi):
     cfg = cfg_of(fi)
     al = alias_text(fi)
